@@ -290,7 +290,7 @@ impl Property for C09 {
         ];
         (
             (0..TYPES.len(), dims_strategy(), kind),
-            (any::<u8>(), 0.0f64..1.0, any::<i32>(), -1.0f64..1.0, proptest::bool::weighted(0.3), -4.0f64..4.0),
+            (any::<u8>(), 0.0f64..1.0, any::<i32>(), -1.0f64..1.0, proptest::bool::weighted(0.3), prop_oneof![3 => -4.0f64..4.0, 1 => (-8i32..=8).prop_map(|k| k as f64 / 2.0), 1 => prop_oneof![Just(0.0f64), Just(1.0f64), Just(-1.0f64), Just(2.0f64)]]),
             (parts_pool(), parts_pool(), presence()),
         )
             .prop_map(|((ty, dims, kind), (es, eu, en, bt, neg, yr), (parts, parts2, (pres, zero)))| Case { ty, dims, kind, es, eu, en, bt, neg, parts, parts2, pres, zero, yr })
